@@ -1079,6 +1079,36 @@ def eval_set(case, louts, ctx):
                               "CubeSet #%d on the same %s response/transform objects differs from a fresh one at %s %s" %
                               (rnd + 1, flavour, where, raises[:3])))
             break
+    # round 5: responses given as JSON TEXT (immutable values).  A CubeSet that inflates / augments them must leave a
+    # later Cube or CubeSet built from the very same strings exactly as a fresh evaluation on pristine dict copies
+    # (nothing may be shared between objects through a cache of parsed text)
+    if flavour in ("numeric", "augment") and not findings:
+        def cube_observe(c):
+            out = {n: read(c, n) for n in public_reads(c) if n != "partitions"}
+            ps, exc = sc.exc_name(lambda: c.partitions)
+            out["partitions"] = {"raises": exc} if exc else [type(p).__name__ for p in ps]
+            return out
+        wantc = [cube_observe(Cube(copy.deepcopy(r))) for r in R0]
+        texts = [json.dumps(r) for r in R0]
+        forms = [list(texts), [json.dumps({"value": r}) for r in R0]][case["seed"] % 2]     # plain text / text of an envelope
+        for rnd in range(2):
+            got = set_observe(CubeSet(list(forms), copy.deepcopy(T0), case["population"], case["min_base"]))
+            ok, where = common.deep_close(got, want)
+            if not ok:
+                findings.append(F("spec", "set.%s.text-form" % flavour,
+                                  "CubeSet #%d built from JSON text differs from the one built from dicts at %s" % (rnd + 1, where)))
+                break
+            for k, f in enumerate(forms):
+                gotc = cube_observe(Cube(f))
+                ok, where = common.deep_close(gotc, wantc[k])
+                if not ok:
+                    findings.append(F("spec", "set.%s.text-reuse" % flavour,
+                                      "Cube built from the JSON text of response %d after a CubeSet used the same text differs "
+                                      "from a fresh Cube on a pristine dict at %s" % (k, where)))
+                    break
+            if findings:
+                break
+        ctx.count("set-text-reuse:%s" % flavour)
     # N5: cross-kind re-use, excluded point
     if flavour in ("numeric", "augment"):
         idx = 0 if flavour == "numeric" else 1
